@@ -124,6 +124,23 @@ Proof.
 Qed.
 Print Assumptions C10_remembered_not_own_listen.
 
+(* In particular for histories that consist of API calls (add_known_address at any level,
+   register_listen_address, dial_address, public addresses, held connections, probes) and complete
+   dial(peer) / dial_address episodes - i.e. without dial results reported out of the blue and raw
+   store inserts - nothing is assumed at all. *)
+Theorem C10_api_histories :
+  forall c k L0 h p s a z,
+    Forall api_op h ->
+    get p (bk (fst (run c k (mkState [] L0 0 []) h))) = Some s -> In (a, z) s ->
+    (last a (Other 0) = P2p p /\ enabled c (route c a) = true /\
+     exists ho port, parse (route c a) a = Some (ho, port, Some p)) /\
+    forall l, In l L0 -> strip_p2p a <> l /\ strip_p2p a <> l ++ [P2p (local_peer c)].
+Proof.
+  intros c k L0 h p s a z Hw Hg Hin. destruct (run_api c k L0 h p s a z Hw Hg Hin) as [H1 H2].
+  split; [exact H1 | exact (proj1 (not_own_spec _ _ _) H2)].
+Qed.
+Print Assumptions C10_api_histories.
+
 (* What dial_address lets through (and stores with score 0 before dialing): free outbound
    capacity, not a registered listen address - neither literally nor with its /p2p suffix taken
    off, i.e. under another peer id - and an address that names q and is parsed with q by the
@@ -455,6 +472,22 @@ Theorem C10_dial_address_new_step :
   (forall p, p <> q -> get p (bk st') = get p (bk st)).
 Proof. exact step_dial_addr_new. Qed.
 Print Assumptions C10_dial_address_new_step.
+
+(* ... and when the transport refuses to start the dial (its dial() returns an error): a stored
+   address keeps its score, a new one is remembered as untested (score 0, or the public bonus);
+   nothing else changes. *)
+Theorem C10_dial_address_refused_step :
+  forall c k st a vs t q,
+  dial_addr_check c st a = DAOk t q ->
+  let s := get_or_empty q (bk st) in
+  let st' := fst (step c k st (ODialAddrRefused a vs)) in
+  (forall z0, find a s = Some z0 -> get q (bk st') = Some s) /\
+  (find a s = None -> (length s < cap k)%nat ->
+     get q (bk st') = Some (s ++ [(a, new_score k a 0%Z)])) /\
+  (forall p, p <> q -> get p (bk st') = get p (bk st)) /\
+  lst st' = lst st /\ held st' = held st /\ pubs st' = pubs st.
+Proof. exact step_dial_addr_refused. Qed.
+Print Assumptions C10_dial_address_refused_step.
 
 (* i32: the public-address bonus saturates at both ends ... *)
 Theorem C10_saturation :
